@@ -81,7 +81,33 @@ class C06(core.Prop):
     def corpus(self):
         return []
 
+    def gen_band_case(self, rng):
+        """one real column around the edges of the fuzzy band of a bound b (positive or negative), with the
+        matching epsilon: records on the bound, inside the band, on its edge and outside it"""
+        b = rng.choice([-128.0, -64.0, -8.0, 8.0, 64.0, 128.0])
+        e = rng.choice([Fraction(1, 2), Fraction(1, 4), Fraction(1, 8)])
+        ef = float(e)
+        kind = rng.choice(['min', 'max'])
+        lo, hi = sorted([b * (1 - ef), b * (1 + ef)])
+        pts = [b, lo, hi, lo - 0.5, hi + 0.5, lo + 0.5, hi - 0.5, b + 0.5, b - 0.5, None]
+        n = rng.randint(3, 8)
+        cells = [rng.choice(pts) for _ in range(n)]
+        cells[0] = (lo - 0.5) if kind == 'min' else (hi + 0.5)          # a genuine violation
+        cells[1] = (b - 0.5) if kind == 'min' else (b + 0.5)            # strictly inside the band
+        fam = rng.choice(['float64', 'Float64'])
+        name = 'x0'
+        ks = [{'kind': kind, 'value': b, 'precision': rng.choice(['fuzzy', None])}]
+        if rng.random() < 0.3:
+            ks.append({'kind': 'max_nulls', 'value': 0})
+        return {'frame': {'nrows': n, 'cols': [{'name': name, 'fam': fam, 'cells': cells}]},
+                'constraints': {name: preferred(ks)}, 'eps': [e.numerator, e.denominator],
+                'opts': {'per_constraint': True, 'write_all': rng.random() < 0.5, 'output_fields': None,
+                         'index': False, 'in_place': False, 'boolean_ints': False},
+                'out': None, 'stale': False}
+
     def gen_case(self, rng, i):
+        if rng.random() < 0.2:
+            return self.gen_band_case(rng)
         fr = cx.gen_frame(rng, fams=c02.MODEL_FAMS)
         if fr['nrows'] == 0:
             fr = cx.gen_frame(rng, fams=c02.MODEL_FAMS)
